@@ -33,6 +33,8 @@ class Renderer:
     def ty(self, o):
         if o["kind"] == "bit":
             return "Bit"
+        if o["kind"] == "bool":
+            return "bool"
         if o["kind"] == "arr":
             return f"Array[Unsigned[{o.get('w', self.W)}], {o['n']}]"
         return f"Unsigned[{o.get('w', self.W)}]"
@@ -280,7 +282,7 @@ class Renderer:
         d = o.get("default")
         if d is None:
             return ""
-        if o["kind"] == "bit":
+        if o["kind"] in ("bit", "bool"):
             return str(bool(d))
         return str(d)
 
@@ -304,6 +306,7 @@ class Env:
         self.push = [o["name"] for o in objs if o.get("push")]
         self.var_bits = [o["name"] for o in spec.get("vars", []) if o["kind"] == "bit"]
         self.var_vecs = [o["name"] for o in spec.get("vars", []) if o["kind"] == "u"]
+        self.var_bools = [o["name"] for o in spec.get("vars", []) if o["kind"] == "bool"]
         self.loc_bits = []
         self.loc_vecs = []
         self.loc_bools = []
@@ -320,6 +323,7 @@ class Env:
         c = self.child()
         c.sig_vecs, c.sig_bits, c.var_vecs, c.var_bits, c.loc_vecs, c.loc_bits = [], [], [], [], [], []
         c.loc_bools = []
+        c.var_bools = []
         c.readable_sigs = False
         return c
 
@@ -412,6 +416,8 @@ def cond_expr(env, depth=2):
     opts = [b, b]
     if env.loc_bools:
         opts.append(st.sampled_from(env.loc_bools).map(lambda n: ["loc", n, 1]))
+    if getattr(env, "var_bools", None):
+        opts.append(st.sampled_from(env.var_bools).map(lambda n: ["var", n]))
     if nc is not None:
         cmp_ = st.tuples(st.just("cmp"), st.sampled_from(["==", "!=", "!=", "<", "<=", "<=", ">", ">=", ">="]), nc,
                          st.one_of(vec_leaf(env), st.integers(0, (1 << env.W) - 1).map(lambda v: ["const", v]))).map(list)
@@ -477,7 +483,12 @@ def simple_stmt(draw, env):
         opts += ["push"] * 2
     if env.flavor != "conc":
         opts += ["bind"]
+    if getattr(env, "var_bools", None):
+        opts += ["boolvar"] * 2
     k = draw(st.sampled_from(opts))
+    if k == "boolvar":
+        return {"k": draw(st.sampled_from(["var", "var", "value"])), "t": {"name": draw(st.sampled_from(env.var_bools))},
+                "e": draw(cond_expr(env, 1))}
     if k in ("assign", "next"):
         t, (kind, w) = draw(sig_target(env, sig_v, sig_b))
         return {"k": k, "t": t, "e": draw(source_for(env, kind, w))}
@@ -741,6 +752,8 @@ def design(draw, flavor, reset=None, max_stmts=5, depth=2):
         for i in range(draw(st.integers(0, 2))):
             kind = draw(st.sampled_from(["u", "u", "bit"]))
             vars_.append({"name": f"v{kind[0]}{i}", "kind": kind, "default": draw(dflt(kind, False))})
+    if flavor in ("seq", "coro") and draw(st.integers(0, 2)) == 0:
+        vars_.append({"name": "vq0", "kind": "bool", "default": draw(st.integers(0, 1))})
     if flavor in ("seq", "coro") and draw(st.integers(0, 2)) == 0:
         kind = draw(st.sampled_from(["u", "bit"]))
         outputs.append({"name": "op0", "kind": kind, "default": draw(dflt(kind, False)), "push": True})
